@@ -701,6 +701,11 @@ class Datatype(Item):
         try:
             for constr in data['constrs']:
                 constr_type = parser.parse_type(constr['type'])
+                argT, resT = constr_type.strip_type()
+                if resT != TConst(self.name, *(TVar(arg) for arg in self.args)):
+                    raise ItemException("Datatype %s: constructor %s does not construct the type" % (self.name, constr['name']))
+                if len(argT) != len(constr['args']):
+                    raise ItemException("Datatype %s: wrong number of arguments for %s" % (self.name, constr['name']))
                 self.constrs.append({
                     'name': constr['name'],
                     'type': constr_type,
